@@ -288,7 +288,19 @@ type loadObs struct {
 
 var locRe = regexp.MustCompile(`[\w./-]+\.go:\d+`)
 
+const importFlake = "could not import github.com/quasilyte/go-ruleguard/dsl"
+
 func load(e *ruleguard.Engine, fset *token.FileSet, name, src string, via string, accept map[string]bool) (o loadObs) {
+	for try := 0; try < 4; try++ {
+		o = load1(e, fset, name, src, via, accept)
+		if !strings.Contains(o.Err, importFlake) {
+			break
+		}
+	}
+	return o
+}
+
+func load1(e *ruleguard.Engine, fset *token.FileSet, name, src string, via string, accept map[string]bool) (o loadObs) {
 	defer func() {
 		if r := recover(); r != nil {
 			o = loadObs{Panic: fmt.Sprint(r)}
